@@ -170,6 +170,8 @@ func c25Lifecycle(t *rapid.T) {
 	}
 	prof["unbond"] = 20
 	prof["addOrder"], prof["removeOrder"], prof["buyPool"] = 10, 8, 10
+	// ticker ownership is cached per symbol as well
+	prof["editCoinOwner"], prof["recreateToken"], prof["recreateCoin"] = 8, 5, 4
 	// one case in 32 runs on a node with more than ten thousand accounts, all of which are read before
 	// the first sweep, after a restart and at the start of every sweep inside Commit: a cache that
 	// releases entries under pressure must not hand out stale ones afterwards
@@ -282,4 +284,52 @@ func c25Lifecycle(t *rapid.T) {
 	sim.S.LabelN("C25/lifecycle/restarts", restarts)
 	sim.S.LabelN("C25/lifecycle/unbonds", r.KindsOK["unbond"])
 	sim.S.Case("TestC25LifecycleReads", points["inside-commit"] > 0 && reads > 50, sim.HashStrings(r.Steps), func() interface{} { return sim.HistorySample(r.Steps, 24) })
+}
+
+// queryLoad puts a third of a check's histories under read-only query load with a schedule owned by
+// the harness: a sweep of the API's current-state reads (c25Sweep, drawn groups) runs inside every
+// Commit of the node, between saving the new version and switching the modules to it, and another one
+// right after it. Serving queries is normal operation of a node and must not change anything (C25), so
+// every other oracle has to hold under it as well. crowd > 0: the world has that many extra accounts
+// (WorldOpts.ExtraAccounts) and all of them are read before the users' accounts. The returned function
+// removes the call-out again (defer it).
+func queryLoad(t *rapid.T, h *history, crowd int) func() {
+	if sim.U(t, "queryLoad", 3) != 0 && crowd == 0 {
+		return func() {}
+	}
+	h.G.Detached = true
+	var addrs []types.Address
+	for i := 0; i < h.W.NUsers; i++ {
+		addrs = append(addrs, sim.GetUser(i).Addr)
+	}
+	maxOrder := uint32(0)
+	sweep := func(point string, mask int) {
+		cs := h.N.App.CurrentState()
+		if crowd > 0 && point == "inside-commit" {
+			for k := 0; k < crowd; k++ {
+				cs.Accounts().GetBalance(sim.ExtraAddr(k), 0)
+			}
+		}
+		for _, o := range h.G.V.Orders {
+			if uint32(o) > maxOrder {
+				maxOrder = uint32(o)
+			}
+		}
+		c25Sweep(cs, addrs, append([]uint64{0}, h.G.V.CoinIDs...), h.N.LastHeight+1, maxOrder, mask)
+		h.R.Steps = append(h.R.Steps, fmt.Sprintf("  QUERIES (%s, groups %07b)", point, mask))
+	}
+	h.R.H.BeforeCommit = func(uint64) {
+		if sim.U(t, "qlInCommit", 3) != 0 {
+			m := 1 + sim.U(t, "qlGroups", 127)
+			tree.VerifCommitWindow = func() { sweep("inside-commit", m) }
+		}
+	}
+	h.R.H.AfterNodeCommit = func(uint64) {
+		tree.VerifCommitWindow = nil
+		if sim.U(t, "qlAfterCommit", 3) == 0 {
+			sweep("after-commit", 1+sim.U(t, "qlGroups2", 127))
+		}
+	}
+	sim.S.Label("query-load/histories")
+	return func() { tree.VerifCommitWindow = nil }
 }
